@@ -121,6 +121,12 @@ def run(db, chk) -> None:
                found=[(h, T.show(a)[:60], T.show(b)[:60], "positional" if p else "label-aligned") for h, a, b, p in got],
                accepted=[("labels", "index_x", "index_y.values"), ("labels", "index_y", "index_x.values")],
                why="a missing/duplicated direction breaks mutuality; a label-aligned right-hand side writes unrelated or NaN ids" + (" (label-aligned RHS found)" if soft else ""))
+        # the pairs written are ALL pairs of the join: no row of the link frame is filtered away between the join and the stores
+        ctxs = [s_.get("rowsel_ctx") for s_ in stores] + [s_["value"][2] for s_ in stores if isinstance(s_["value"], tuple) and s_["value"] and s_["value"][0] == "positional" and len(s_["value"]) > 2]
+        unfiltered = bool(ctxs) and all(isinstance(c_, tuple) and len(c_) == 3 and c_[0] == jbase and c_[1] == T.TRUE for c_ in ctxs)
+        chk.ob("C02.R3-mutual-stores", f"{tag}: every pair of the join is written (the link frame is not filtered between the join and the stores)", unfiltered, where,
+               found=[T._ctx(c_)[:160] if isinstance(c_, tuple) else str(c_) for c_ in ctxs][:2], accepted="all rows of the inner join",
+               why="dropping 'implausible' pairs (e.g. activity stamped before its launch) leaves both partners with the sentinel 0 although the counterpart is in the trace")
         # final value flows out
         ret = r.ret
         chk.ob("C02.R3-mutual-stores", f"{tag}: the frame returned is the frame that was linked", isinstance(ret, Frame) and ret.base == DF and ret.obj == init[0]["obj"] if init else False, where,
